@@ -196,6 +196,7 @@ structure ModParts (s s' : HistState) (id : Nat) (delta : Int) (pos : PositionD)
   fgB : s'.pool.fgB = s.pool.fgB
   pfA : s'.pool.pfA = s.pool.pfA
   pfB : s'.pool.pfB = s.pool.pfB
+  proto : s'.pool.protoRate = s.pool.protoRate
   positions : s'.positions = posReplace s.positions id u.position
 
 theorem modify_parts (s s' : HistState) (id amount : Nat) (positive : Bool) (outs : List Nat)
@@ -226,7 +227,7 @@ theorem modify_parts (s s' : HistState) (id amount : Nat) (positive : Bool) (out
               simp only [Except.ok.injEq, Prod.mk.injEq] at h
               obtain ⟨h1, _⟩ := h
               subst h1
-              refine ⟨pos, u, da, db, ⟨hpos, hu, rfl, rfl, rfl, rfl, rfl, rfl, rfl⟩, hamt, rfl, hd, ?_⟩
+              refine ⟨pos, u, da, db, ⟨hpos, hu, rfl, rfl, rfl, rfl, rfl, rfl, rfl, rfl⟩, hamt, rfl, hd, ?_⟩
               rw [if_pos hp]; exact ⟨rfl, rfl⟩
             · rw [if_neg hp] at h
               split at h
@@ -235,7 +236,7 @@ theorem modify_parts (s s' : HistState) (id amount : Nat) (positive : Bool) (out
                 simp only [Except.ok.injEq, Prod.mk.injEq] at h
                 obtain ⟨h1, _⟩ := h
                 subst h1
-                refine ⟨pos, u, da, db, ⟨hpos, hu, rfl, rfl, rfl, rfl, rfl, rfl, rfl⟩, hamt, rfl, hd, ?_⟩
+                refine ⟨pos, u, da, db, ⟨hpos, hu, rfl, rfl, rfl, rfl, rfl, rfl, rfl, rfl⟩, hamt, rfl, hd, ?_⟩
                 rw [if_neg hp]
                 simp only [Bool.or_eq_true, decide_eq_true_eq, not_or, not_lt] at hv
                 exact ⟨hv.1, hv.2, rfl, rfl⟩
@@ -254,7 +255,7 @@ theorem upd_parts (s s' : HistState) (id : Nat) (outs : List Nat)
       simp only [Except.ok.injEq, Prod.mk.injEq] at h
       obtain ⟨h1, _⟩ := h
       subst h1
-      exact ⟨pos, u, ⟨hpos, hu, rfl, rfl, rfl, rfl, rfl, rfl, rfl⟩, rfl, rfl, rfl⟩
+      exact ⟨pos, u, ⟨hpos, hu, rfl, rfl, rfl, rfl, rfl, rfl, rfl, rfl⟩, rfl, rfl, rfl⟩
 
 /-- what `calculateModifyLiquidity` returns, piece by piece -/
 theorem calcModify_parts (p : PoolD) (pos : PositionD) (tl tu : TickData) (delta : Int) (now : Nat) (u : ModifyUpdate)
